@@ -36,6 +36,8 @@ type prep struct {
 	member           *keys.PrivateKey // placement roster member
 	cid              []byte           // live container (meta enabled) of u0
 	blobNew          []byte           // a container blob not yet registered
+	blobOld          []byte           // the registered container p.cid (meta-on-chain switched on)
+	blobPlain        []byte           // a second registered container, without meta-on-chain
 	ownerID          []byte
 	epoch            int64
 	irMajority       neotest.Signer // N/2+1 of the NeoFSAlphabet role keys
@@ -182,8 +184,10 @@ func newPrepWith(b *runner.Batch, n int, set world.Set) *prep {
 	h := sha256.Sum256(blob)
 	p.cid = h[:]
 	p.blobNew = containerBlob(p.ownerID, 2)
+	p.blobOld, p.blobPlain = blob, containerBlob(p.ownerID, 3)
 	sig := bytes.Repeat([]byte{1}, 64)
 	ok = must(b, w.Invoke(A, w.H("container"), "put", blob, sig, p.u0k.PublicKey().Bytes(), []byte{}, true), "container put") &&
+		must(b, w.Invoke(A, w.H("container"), "put", p.blobPlain, sig, p.u0k.PublicKey().Bytes(), []byte{}), "container put (no meta)") &&
 		must(b, w.Invoke(A, w.H("container"), "addNextEpochNodes", p.cid, int64(0), []any{p.member.PublicKey().Bytes()}), "roster") &&
 		must(b, w.Invoke(A, w.H("container"), "commitContainerListUpdate", p.cid, []any{int64(1)}), "commit") &&
 		must(b, w.Invoke([]world.SignerSpec{world.G(p.u0)}, w.H("nns"), "register", "own.com", p.u0.ScriptHash(), "a@b.c", int64(1), int64(1), int64(100000), int64(1)), "nns register") &&
